@@ -463,6 +463,40 @@ def _fl(s):
 # area twins (C14/C15): the bounds models of the unsafe fast paths
 XCHECK["xmatch"] = ("Arith.UnsafeBounds", _xc_out("z", lambda a: f"extend_match {_fl(a[5])} {_zl(a[0])} {_z(a[1])} {_z(a[2])} {_z(a[3])} {_z(a[4])}"))
 XCHECK["freject"] = ("Arith.UnsafeBounds", _xc_out("z", lambda a: f"match_len_fast_reject {_fl(a[4])} {_zl(a[0])} {_z(a[1])} {_z(a[2])} {_z(a[3])}"))
+def _quad(call, q):
+    """driver/h_twins.ml quad: "v,r,c,p" | E | X   -> Gallina boolean"""
+    if q == "E":
+        return f"match {call} with Err _ => true | _ => false end"
+    if q == "X":
+        return f"match {call} with Panic _ => true | _ => false end"
+    w = q.split(",")
+    if len(w) != 4:
+        return None
+    v, r, c, pp = (_z(x) for x in w)
+    return f"match {call} with Ok (v, r, c, p) => (v =? {v}) && (r =? {r}) && (c =? {c}) && (p =? {pp}) | _ => false end"
+
+
+def _dbits_term(disp):
+    def f(a, m):
+        w = m.split(" ")
+        if w[0] != "OK" or len(w) != 4:
+            return None
+        args = f"{_zl(a[0])} {_z(a[1])} {_z(a[2])} {_z(a[3])} {_z(a[4])}"
+        has_asm = "true" if a[5] == "asm" else "false"
+        ts = [_quad(f"direct_bits_rust_loop {args}", w[1]),
+              "true" if w[2] == "-" else _quad(f"direct_bits_asm {args}", w[2]),
+              _quad(f"{disp} {has_asm} {args}", w[3])]
+        if any(t is None for t in ts):
+            return None
+        # "-" is printed exactly when the assembly twin is not evaluated
+        if (w[2] == "-") != (not (a[5] == "asm" and int(a[4]) > 0)):
+            return "false"
+        return "(" + ") && (".join(ts) + ")"
+    return f
+
+
+XCHECK["dbits"] = ("Arith.DirectBitsAsm", _dbits_term("direct_bits_dispatch"))
+XCHECK["dbits_old"] = ("Arith.DirectBitsAsm", _dbits_term("direct_bits_dispatch_old"))
 _DEC = "Codec.Lzma1 Codec.Lzma2Dec Codec.XCheckDec"
 XCHECK["lzma2"] = (_DEC, _rd("x_lzma2", lambda a: f"lzma2_new {_zl(a[2])} {_z(a[0])} {_pre(a[1])}", 3))
 XCHECK["lzma1_hdr"] = (_DEC, _rd("x_lzma1", lambda a: f"lzma1_new_mem_limit {_zl(a[1])} {_z(a[0])} None", 2))
@@ -470,7 +504,7 @@ XCHECK["lzma1_raw"] = (_DEC, _rd("x_lzma1", lambda a: f"lzma1_construct2 {_zl(a[
 XCHECK["lzma1_props"] = (_DEC, _rd("x_lzma1", lambda a: f"lzma1_construct1 {_zl(a[4])} {_unc(a[0])} {_z(a[1])} {_z(a[2])} {_pre(a[3])}", 5))
 # reader cases are evaluated byte by byte inside Coq: only short sources
 XCHECK_MAXLEN_BY_CMD = dict(lzma2=700, lzma1_hdr=700, lzma1_raw=700, lzma1_props=700)
-XCHECK_SAMPLE = 48          # cases per area and stage
+XCHECK_SAMPLE = 48          # cases per area (at least 8 per stratum)
 XCHECK_MAXLEN = 6000        # characters of a case line (a hex byte becomes a Z literal)
 
 
@@ -492,7 +526,7 @@ def xcheck(cases, model, workdir):
         # strata: command x class of the driver's answer (OK / ERR / PANIC ...), so that the error
         # and panic branches of the model are cross-checked too
         by_cmd.setdefault(cases[k].split(" ")[0] + " " + model.get(k, "MISSING").split(" ")[0], []).append(k)
-    per = max(1, XCHECK_SAMPLE // len(by_cmd))
+    per = max(8, XCHECK_SAMPLE // len(by_cmd))
     pick = []
     for cmd in sorted(by_cmd):
         ks = by_cmd[cmd]
